@@ -8,6 +8,7 @@ import Midgard.Model.Purity
         → `err <cachelen>` | `ok <hex(sys)=hex(t);…,…|-> <cachelen>`
   c16 cover <hex(cell id)>                      → memo | registry | sink | none
   c16 effects                                   → number of effect cells, number covered
+  c16 trusted                                   → the cells covered as `sink` (trusted, not proved), comma separated
   c16 reg <q1,q2,…>                             questions `g:name` (get) / `l:name` (load) / `e:name` (exists) in order from
         an empty registry
         → `<found|missing>,… keys=<sorted registered names>`
@@ -75,6 +76,7 @@ def handle : List String → Option String
   | ["c16", "cover", c] => do
     let c ← decodeHex? c
     pure (showCover (coverOf c))
+  | ["c16", "trusted"] => some (",".intercalate trustedCells)
   | ["c16", "effects"] =>
     some s!"{effects.length} {(effects.filter fun e => (coverOf e).isSome).length}"
   | ["c16", "reg", names] => do
